@@ -12,7 +12,7 @@ import (
 
 func init() {
 	register("C14", runC14, propMeta{
-		Explanation: "Decides, for all rule sets and every position of the rule that sets the tag: (T1, rule A3-T) in the three sorted stop-tag variants every path from a rule execution to the next iteration reads sTag.StopTag after that execution (so the setting rule completes and its result and error are handled first), the true edge leaves the loop at its normal exit (collected errors still surface) and reaches no further rule execution; (T2) in the mix variant the tag is read after the first rule's execution and error handling, every go statement is dominated by the false edge of that test, and the true edge reaches no rule execution; (T3) each tagged function agrees with its untagged sibling: the multiset of branch conditions differs only by reads of sTag.StopTag and the multiset of calls is identical, so with the tag never set the behaviour is the sibling's; (T4) the four pool wrappers hand the caller's *Stag to the engine method unchanged. Not decided: the data race a rule body may create on its own Stag (host data). (T6) a conc statement returns only after the join of all its branches, so a rule has completed, its assignment to the tag included, when the tag is read. (T7) both variants of a selected pair skip a name no rule carries (the miss edge of the selection, checked per variant).",
+		Explanation: "Decides, for all rule sets and every position of the rule that sets the tag: (T1, rule A3-T) in the three sorted stop-tag variants every path from a rule execution to the next iteration reads sTag.StopTag after that execution (so the setting rule completes and its result and error are handled first), the true edge leaves the loop at its normal exit (collected errors still surface) and reaches no further rule execution; (T2) in the mix variant the tag is read after the first rule's execution and error handling, every go statement is dominated by the false edge of that test, and the true edge reaches no rule execution; (T3) each tagged function agrees with its untagged sibling: the multiset of branch conditions differs only by reads of sTag.StopTag and the multiset of calls is identical, so with the tag never set the behaviour is the sibling's; (T4) the four pool wrappers hand the caller's *Stag to the engine method unchanged. Not decided: the data race a rule body may create on its own Stag (host data). (T6) a conc statement returns only after the join of all its branches, so a rule has completed, its assignment to the tag included, when the tag is read. (T7) both variants of a selected pair skip a name no rule carries (the miss edge of the selection, checked per variant). (T8) both mix variants treat a failing first rule alike: nothing else runs and its error is returned.",
 		Assumptions: []string{"the rule sets the tag through the injected *Stag it was given"},
 		Trusted:     commonTrusted,
 	})
@@ -317,12 +317,33 @@ func runC14(c *Ctx) {
 	// T6: "the rule that set it completes": the tag is read after the rule has returned, so everything the
 	// rule does -- the assignment to the tag in a branch of a conc block included -- must have happened by
 	// then: a conc statement returns only after the join of all its branches (the join obligations of C18-J1)
+	c.armConcJoin("T6-rule-complete-when-it-returns")
+	// T8: the two mix variants treat a failing first rule alike: nothing else runs and its error is
+	// returned (the first-rule obligations of C05-B2 on both; T3's bags of conditions and calls do not
+	// see a failure that is collected where the twin returns)
+	for _, n := range []string{"ExecuteMixModel", "ExecuteMixModelWithStopTagDirect"} {
+		fn := c.MustFn("T8-mix-variants-fail-alike", "engine", "Gengine", n)
+		if fn == nil {
+			continue
+		}
+		E := c.engModel(fn).errList()
+		c.only = func(key string) bool { return strings.HasSuffix(key, "/first-fails") }
+		fos := c.ruleA4("T8-mix-variants-fail-alike", fn, isRuleExec, E)
+		c.ruleSyncSingles("T8-mix-variants-fail-alike", fn, fos, E, "first")
+		c.only = nil
+	}
+	c.Min("T8-mix-variants-fail-alike", 2)
+}
+
+// armConcJoin: a conc statement returns only after the join of all its branches (the join
+// obligations of C18-J1), so a rule -- and the request that runs it -- has completed when it returns.
+func (c *Ctx) armConcJoin(rule string) {
 	if cf := c.Fn("internal/base", "ConcStatement", "Evaluate"); cf != nil {
 		c.only = func(key string) bool { return strings.HasSuffix(key, "/barrier") || strings.HasSuffix(key, "/wait") }
 		c.joinBeforeReturnOnly = true
-		c.ruleA4("T6-rule-complete-when-it-returns", cf, isBaseEvaluate, c.engModel(cf).errList())
+		c.ruleA4(rule, cf, isBaseEvaluate, c.engModel(cf).errList())
 		c.only = nil
 		c.joinBeforeReturnOnly = false
 	}
-	c.Min("T6-rule-complete-when-it-returns", 1)
+	c.Min(rule, 1)
 }
